@@ -233,7 +233,8 @@ static std::string stepLine(State& s, const std::vector<std::string>& w)
             Payload pl(PayloadType(ty), hb.p, hb.n);
             p.setPayload(pl);
         }
-        s.pkts[w[1]] = p;
+        s.pkts.erase(w[1]);
+        s.pkts.emplace(w[1], p);   // copy construction; the assignment operators are exercised by the `pk` operations only
         return "ok";
     }
     if (w[0] == "enc" && w.size() >= 3)
